@@ -338,7 +338,7 @@ func Mutate(t *rapid.T, units [][]byte) ([][]byte, string) {
 			u = append(u, []byte{0})
 		}
 		i := rapid.IntRange(0, len(u)-1).Draw(t, "unit")
-		kind := rapid.SampledFrom([]string{"truncate-stream", "truncate-unit", "delete", "duplicate", "swap", "flip", "insert", "length-field", "ascii-number", "splice", "repeat-many"}).Draw(t, "mut")
+		kind := rapid.SampledFrom([]string{"truncate-stream", "truncate-unit", "delete", "duplicate", "swap", "flip", "insert", "length-field", "ber-length", "ber-length", "ascii-number", "splice", "repeat-many"}).Draw(t, "mut")
 		kinds = append(kinds, kind)
 		switch kind {
 		case "truncate-stream":
@@ -375,6 +375,16 @@ func Mutate(t *rapid.T, units [][]byte) ([][]byte, string) {
 					u[i][p+q] = v[q]
 				}
 			}
+		case "ber-length":
+			// BER protocols (ldap, snmp): replace the length octets of one (possibly nested)
+			// element with a boundary value
+			if locs := berLengths(u[i], 0, nil); len(locs) > 0 {
+				l := locs[rapid.IntRange(0, len(locs)-1).Draw(t, "element")]
+				v := rapid.SampledFrom([][]byte{{0}, {0x7f}, {0x80}, {0x81, 0xff}, {0x82, 0xff, 0xff}, {0x84, 0x7f, 0xff, 0xff, 0xff}, {0x84, 0xff, 0xff, 0xff, 0xff}, {0x85, 0x01, 0, 0, 0, 0}, {0x86, 0x01, 0, 0, 0, 0, 0}, {0x87, 0x10, 0, 0, 0, 0, 0, 0}, {0x88, 0x7f, 0xff, 0xff, 0xff, 0xff, 0xff, 0xff, 0xff}, {0x89, 1, 1, 1, 1, 1, 1, 1, 1, 1}}).Draw(t, "berlen")
+				u[i] = append(append(append([]byte(nil), u[i][:l[0]]...), v...), u[i][l[1]:]...)
+			} else {
+				kinds[len(kinds)-1] = "ber-length(n/a)"
+			}
 		case "ascii-number":
 			// text protocols carry lengths and counts as decimal numbers: inflate one
 			if locs := asciiNumber.FindAllIndex(u[i], -1); len(locs) > 0 {
@@ -409,4 +419,36 @@ func RawBytes(t *rapid.T, max int) [][]byte {
 		}
 	}
 	return u
+}
+
+// berLengths returns the [start,end) offsets of the length octets of every element of a
+// well-formed BER encoding (nested elements included).
+func berLengths(b []byte, base int, out [][2]int) [][2]int {
+	i := 0
+	for i+2 <= len(b) {
+		tag := b[i]
+		j := i + 1
+		l := int(b[j])
+		end := j + 1
+		if l&0x80 != 0 {
+			n := l & 0x7f
+			if n == 0 || n > 4 || j+1+n > len(b) {
+				return out
+			}
+			l = 0
+			for _, c := range b[j+1 : j+1+n] {
+				l = l<<8 | int(c)
+			}
+			end = j + 1 + n
+		}
+		if end+l > len(b) {
+			return out
+		}
+		out = append(out, [2]int{base + j, base + end})
+		if tag&0x20 != 0 {
+			out = berLengths(b[end:end+l], base+end, out)
+		}
+		i = end + l
+	}
+	return out
 }
